@@ -22,7 +22,7 @@ Args(n) ==
   \cup {[op |-> "modify", k |-> k, g |-> g] : k \in {"a", "x"}, g \in Fns}
   \cup {[op |-> "modify_if", p |-> p, k |-> k, g |-> g] : p \in Preds, k \in {"a", "x"}, g \in Fns}
   \cup {[op |-> "fill", kv |-> kv] : kv \in {<<<<"a", 0>>>>, <<<<"x", None>>>>, <<<<"a", 1>>, <<"b", None>>>>}}
-  \cup {[op |-> "fill_all"], [op |-> "reverse"], [op |-> "copy"]}
+  \cup {[op |-> "fill_all"], [op |-> "reverse"], [op |-> "copy"], [op |-> "map_item"], [op |-> "map_key", k |-> "a"], [op |-> "map_key", k |-> "b"]}
   \cup {[op |-> "append", item |-> it] : it \in NewItems}
   \cup {[op |-> o, items |-> its] : o \in {"extend", "add"}, its \in NewLists}
   \cup {[op |-> "insert", i |-> i, item |-> it] : i \in (-n-1)..(n+1), it \in {MkItem(100, 0, None)}}
